@@ -545,7 +545,21 @@ static void testBasis(const std::string& test, const char* path, const char* bas
    if(!ok)
       return;
 
-   bool withNames = test == "bas1";
+   // bas0/bas1 [r|c][s]: r/c = fixed row/column representation, s = the base LP is solved before the basis file is read
+   bool withNames = test.compare(0, 4, "bas1") == 0;
+   std::string opt = test.substr(4);
+
+   if(opt.find('r') != std::string::npos)
+      s.setIntParam(SP::REPRESENTATION, SP::REPRESENTATION_ROW);
+   else if(opt.find('c') != std::string::npos)
+      s.setIntParam(SP::REPRESENTATION, SP::REPRESENTATION_COLUMN);
+
+   if(opt.find('s') != std::string::npos)
+   {
+      int st0 = (int) s.optimize();
+      printf("presolve-run status=%s\n", statusName(st0));
+   }
+
    bool b = withNames ? s.readBasisFile(path, &rn, &cn) : s.readBasisFile(path, nullptr, nullptr);
    int m = s.numRows(), n = s.numCols();
    printf("readbasis ok=%d hasBasis=%d m=%d n=%d\n", b, (int) s.hasBasis(), m, n);
@@ -824,7 +838,7 @@ static int childMain(const std::string& test, const std::string& path, const std
    {
       if(test == "lp-real" || test == "lp-rat" || test == "lp-ratauto")
          testModel(test, path.c_str());
-      else if(test == "bas0" || test == "bas1")
+      else if(test.compare(0, 4, "bas0") == 0 || test.compare(0, 4, "bas1") == 0)
          testBasis(test, path.c_str(), aux.c_str());
       else if(test == "set")
          testSettings(path.c_str());
